@@ -697,10 +697,16 @@ func (p *Program) Reach(roots []*ssa.Function) map[*ssa.Function]reachInfo {
 			}
 		}
 		for _, a := range fn.AnonFuncs {
-			next = append(next, struct {
-				f *ssa.Function
-				s ssa.CallInstruction
-			}{a, nil})
+			// a closure runs on behalf of its parent when the parent calls, defers or
+			// spawns it, or hands it to a callee as a callback. A closure that is only
+			// stored (a handler kept in a struct field) runs when whoever loads the
+			// field calls it: the VTA edges cover that.
+			if closureUsedAsCallback(fn, a) {
+				next = append(next, struct {
+					f *ssa.Function
+					s ssa.CallInstruction
+				}{a, nil})
+			}
 		}
 		for _, nx := range next {
 			if nx.f == nil || !p.InModule(nx.f) {
@@ -714,6 +720,69 @@ func (p *Program) Reach(roots []*ssa.Function) map[*ssa.Function]reachInfo {
 		}
 	}
 	return out
+}
+
+// closureUsedAsCallback: parent calls/defers/spawns the closure or passes it as a call argument
+// (possibly after storing it in a local variable).
+func closureUsedAsCallback(parent, anon *ssa.Function) bool {
+	used := false
+	var visitVal func(v ssa.Value, depth int)
+	visitVal = func(v ssa.Value, depth int) {
+		if depth > 4 || used {
+			return
+		}
+		refs := v.Referrers()
+		if refs == nil {
+			return
+		}
+		for _, ref := range *refs {
+			switch x := ref.(type) {
+			case ssa.CallInstruction:
+				cc := x.Common()
+				if cc.Value == v {
+					used = true
+					return
+				}
+				for _, a := range cc.Args {
+					if a == v {
+						used = true
+						return
+					}
+				}
+			case *ssa.Store:
+				// stored into a local cell: follow loads of the cell
+				if al, ok := x.Addr.(*ssa.Alloc); ok && x.Val == v {
+					for _, r2 := range *al.Referrers() {
+						if u, ok := r2.(*ssa.UnOp); ok {
+							visitVal(u, depth+1)
+						}
+					}
+				}
+			case *ssa.Phi, *ssa.ChangeType, *ssa.MakeInterface:
+				visitVal(x.(ssa.Value), depth+1)
+			}
+		}
+	}
+	for _, b := range parent.Blocks {
+		for _, in := range b.Instrs {
+			switch x := in.(type) {
+			case *ssa.MakeClosure:
+				if x.Fn == anon {
+					visitVal(x, 0)
+				}
+			case ssa.CallInstruction:
+				if f, ok := x.Common().Value.(*ssa.Function); ok && f == anon {
+					used = true
+				}
+				for _, a := range x.Common().Args {
+					if f, ok := a.(*ssa.Function); ok && f == anon {
+						used = true
+					}
+				}
+			}
+		}
+	}
+	return used
 }
 
 // callPath renders the shortest call path root → fn.
